@@ -113,6 +113,8 @@ Definition b_lt : Z := 112.               (* :lt :le :gt :ge written as atoms (+
 Definition b_le : Z := 113.
 Definition b_gt : Z := 114.
 Definition b_ge : Z := 115.
+(* 116..124 :interval:before after meets overlaps during contains starts finishes equals (+,+)
+   125..128 :time:lt le gt ge (+,+)     129..132 :duration:lt le gt ge (+,+) *)
 
 Definition go_table : mtable := fun p =>
   if (p =? b_match_pair) || (p =? b_match_cons) then Some [MIn; MOut; MOut]
@@ -120,7 +122,7 @@ Definition go_table : mtable := fun p =>
   else if (p =? b_match_field) || (p =? b_match_entry) then Some [MIn; MIn; MOut]
   else if p =? b_list_member then Some [MOut; MIn]
   else if p =? b_within_distance then Some [MIn; MIn; MIn]
-  else if (107 <=? p) && (p <=? 115) then Some [MIn; MIn]
+  else if (107 <=? p) && (p <=? 132) then Some [MIn; MIn]
   else None.
 
 (* the table of seeded change C04-3: the key and value places of :match_entry relaxed to "?" *)
